@@ -103,6 +103,10 @@ type Bounds struct {
 	// then again with them, so that the crash variants (which multiply the work per depth) never cost the plain
 	// histories their depth when a budget is hit.
 	NoCrashFirst bool
+	// CPUNow, when set, returns the CPU time the family's worker processes have consumed so far (average per worker).
+	// Budget is then measured on that clock, so that the explored prefix does not shrink when the machine is busy with
+	// other work; wall-clock time is still capped, at 3 x Budget.
+	CPUNow func() time.Duration `json:"-"`
 	NoCrash   bool
 	// CrashAfterStore restricts crash points to those immediately after a durable store
 	// write (the node dies before the effect op that follows the write).
@@ -170,6 +174,10 @@ func Sequential(run Runner) BatchRunner {
 // the crash variants of those events (one per effect operation observed).
 func BFS(name string, runB BatchRunner, b Bounds) *Report {
 	start := time.Now()
+	var cpu0 time.Duration
+	if b.CPUNow != nil {
+		cpu0 = b.CPUNow()
+	}
 	rep := &Report{Scenario: name, Outcomes: map[string]int{}, Exhaustive: true, Bounds: b}
 	seen := map[string]bool{}
 	vseen := map[string]bool{}
@@ -204,6 +212,17 @@ func BFS(name string, runB BatchRunner, b Bounds) *Report {
 		if b.MaxStates > 0 && rep.States >= b.MaxStates {
 			rep.CapHit = fmt.Sprintf("max_states=%d", b.MaxStates)
 			return true
+		}
+		if b.Budget > 0 && b.CPUNow != nil {
+			if used := b.CPUNow() - cpu0; used > b.Budget {
+				rep.CapHit = fmt.Sprintf("budget=%s(worker cpu)", b.Budget)
+				return true
+			}
+			if time.Since(start) > 3*b.Budget {
+				rep.CapHit = fmt.Sprintf("budget=%s(wall clock, 3x)", b.Budget)
+				return true
+			}
+			return false
 		}
 		if b.Budget > 0 && time.Since(start) > b.Budget {
 			rep.CapHit = fmt.Sprintf("budget=%s", b.Budget)
